@@ -597,7 +597,7 @@ func (n *BlockNode) Render(w io.Writer, ctx *RenderContext) error {
 	if _, exists := ctx.parentBlocks[n.name]; !exists {
 		// First time we've seen this block - store its original content
 		// This needs to happen for any block, not just in extending templates
-		if blockContent, ok := ctx.blocks[n.name]; ok && len(blockContent) > 0 {
+		if blockContent, ok := ctx.blocks[n.name]; ok {
 			// Store the content from blocks
 			ctx.parentBlocks[n.name] = blockContent
 		} else {
@@ -606,8 +606,9 @@ func (n *BlockNode) Render(w io.Writer, ctx *RenderContext) error {
 		}
 	}
 
-	// Now get the content to render
-	if blockContent, ok := ctx.blocks[n.name]; ok && len(blockContent) > 0 {
+	// Now get the content to render: an override is whatever a child registered under
+	// this name, even an empty body; only an absent entry falls back to the default
+	if blockContent, ok := ctx.blocks[n.name]; ok {
 		content = blockContent
 	} else {
 		// Otherwise, use the default content from this block node
@@ -1492,7 +1493,7 @@ func (n *RootNode) Render(w io.Writer, ctx *RenderContext) error {
 	for _, child := range n.children {
 		if block, ok := child.(*BlockNode); ok {
 			// Only register blocks that haven't been defined by a child template
-			if !hasChildBlocks || ctx.blocks[block.name] == nil {
+			if _, defined := ctx.blocks[block.name]; !hasChildBlocks || !defined {
 				// Register the block
 				ctx.blocks[block.name] = block.body
 			}
